@@ -38,8 +38,8 @@ Round-3 families: W - work volume per loop (one route with 10^4 stops, 2^12 inse
 vehicles with the customers on the last ones, 140 customers placed by one insertion call, ALNS loops up to 10^4 iterations
 with the iteration count replayed from the recorded scores); A2 - the caller edits the state object / the customers list
 in place between calls (next call vs the same call on a deep copy / on fresh objects, and vs the oracle of the edited
-instance); X - float extremes (finite values near 1e308 whose sums overflow, +-2^60, denormals, -0.0; inf / NaN entries,
-for which raising is accepted). 
+instance); X - judged: -0.0, denormals, tiny values, fractional / zero weights; observation-only (POLICY_X: outside every
+property): inf / NaN entries and finite values >= 2^53 (1e308 coordinates whose costs overflow, +-2^60). 
 """
 import copy as _copy
 import json
@@ -252,14 +252,14 @@ def gen_weights_extreme(rng, inside=False):
     return w
 
 
-def gen_inst_line(n, nveh=3):
+def gen_inst_line(n, nveh=3, multi_every=50):
     """class S: depot at 0, customer i at x = i (or x = 3i, y = 4i), unit demands, wide windows on every 7th customer,
     every 50th customer needs two vehicles"""
     customers = []
     for i in range(1, n + 1):
         customers.append({"id": i, "x": 3 * i, "y": 4 * i, "demand": 1, "tw_start": 5 * i if i % 7 == 0 else 0,
                           "tw_end": 100 * n if i % 7 == 0 else None, "service_time": 1 if i % 5 == 0 else 0,
-                          "required_vehicles": 2 if i % 50 == 3 else 1})
+                          "required_vehicles": 2 if i % multi_every == 3 else 1})
     return {"depot": [0, 0], "customers": customers, "caps": [n, None, n // 4][:nveh] + [None] * max(0, nveh - 3), "num": "float"}
 
 
@@ -405,7 +405,7 @@ def gen_work_seq_cases(rng, thorough=False):
     out = []
     # (a) one route with n stops, removal operators only (linear work), hand-built
     for n in ([10500] if not thorough else [10500, 70000]):
-        inst = gen_inst_line(n, nveh=2)
+        inst = gen_inst_line(n, nveh=2, multi_every=n // 3)  # few multi-vehicle customers: sync_violation scans a route per customer
         ids = list(range(1, n + 1))
         un = [ids[-1]]
         routes = [ids[:-1], []]
@@ -416,7 +416,7 @@ def gen_work_seq_cases(rng, thorough=False):
                     "loops": {"route stops": n - 1}})
     # (b) 2^12+ insertion positions for the one unassigned (two-vehicle) customer
     for n in ([4200] if not thorough else [4200, 8300]):
-        inst = gen_inst_line(n, nveh=2)
+        inst = gen_inst_line(n, nveh=2, multi_every=n)
         inst["caps"] = [None, None]
         inst["customers"][n // 2]["required_vehicles"] = 2
         cid = inst["customers"][n // 2]["id"]
@@ -1117,7 +1117,7 @@ def _run_seq(vrp, case):
             a2_pending = None
         st, rec = res[1]
         history.append((st, rec["post"]))
-        r2 = guarded(vrp.vrp_objective, st, timeout=5, **wkw(case["weights"]))
+        r2 = guarded(vrp.vrp_objective, st, timeout=60 if big else 5, **wkw(case["weights"]))
         rec["obj"] = canon_num(r2[1]) if r2[0] == "ok" else None
         out["steps"].append(rec)
         where = f"step {k} after {name}{tuple(_args(name, params))} on routes {_short(rec['pre']['routes'])} unassigned {_short(rec['pre']['unassigned'])}"
@@ -1133,7 +1133,7 @@ def _run_seq(vrp, case):
             if not _eq(rec["obj"], want, real):
                 errs = [f"vrp_objective(state) = {rec['obj']} but the documented weighted sum of the state is {want}"]
             else:
-                r3 = guarded(vrp.vrp_objective, st.copy(), timeout=5, **wkw(case["weights"]))
+                r3 = guarded(vrp.vrp_objective, st.copy(), timeout=60 if big else 5, **wkw(case["weights"]))
                 if r3[0] != "ok" or canon_num(r3[1]) != rec["obj"]:
                     errs = [f"vrp_objective(state.copy()) = {r3[1:]} but vrp_objective(state) = {rec['obj']}"]
             if not errs:
@@ -1573,7 +1573,7 @@ def methods_check(inst, st, snap, parts):
     real = inst.get("real")
     for name, want in (("total_distance", parts["dist"]), ("vehicles_used", parts["used"]), ("time_window_violation", parts["late"]),
                        ("capacity_violation", parts["overload"]), ("sync_violation", parts["sync"])):
-        r = guarded(getattr(st, name), timeout=5)
+        r = guarded(getattr(st, name), timeout=60)
         if r[0] != "ok":
             return f"VRPState.{name}(): {r}"
         if not _eq(canon_num(r[1]), canon_num(want), real):
@@ -1853,7 +1853,7 @@ def run_part(ctx: Ctx):
         c.pop("twice", None)
         solve_cases.append(c)
     solve_cases = gen_work_solves(rng, big) + solve_cases
-    spec_budget = ctx.budget(1500, 20000)  # implementation states handed to the Coq checker spec_chk
+    spec_budget = ctx.budget(1200, 20000)  # implementation states handed to the Coq checker spec_chk
 
     seq_outs = pmap(run_seq, seq_cases)
     solve_outs = pmap(run_solve, solve_cases)
